@@ -3,7 +3,7 @@ import NbioVerif.Lemmas.ConnBasic
 namespace ConnFull
 
 /-- the poller/kernel-side fields (everything the data invariant does not mention) -/
-def E (s : S) := (s.isWAdded, s.rearm, s.evErr, s.reg, s.kOut, s.disarmed, s.ctl, s.onClose)
+def E (s : S) := (s.isWAdded, s.rearm, s.evErr, s.reg, s.kOut, s.disarmed, s.ctl, s.onClose, s.connecting, s.connEv)
 /-- the data fields -/
 def D (s : S) := (s.closed, s.hung, s.wl, s.left, s.wire, s.accepted)
 
@@ -596,6 +596,12 @@ theorem invD_register (g : Cfg) (s : S) (hi : InvD g s) : InvD g (register g s) 
     · exact hi.of_D (D_pAddRead g s)
     · exact hi.of_D (D_pAddReadWrite g s)
 
+theorem invD_registerDial (g : Cfg) (s : S) (hi : InvD g s) : InvD g (registerDial g s) := by
+  unfold registerDial
+  split
+  · exact hi
+  · exact (InvD.of_D (s := s) (t := { s with isWAdded := true, connecting := true }) rfl hi).of_D (D_pAddReadWrite g _)
+
 /-- updates of poller/kernel-side fields keep the data invariant -/
 theorem InvD.same {g : Cfg} {s t : S} (hi : InvD g s) (h1 : t.closed = s.closed) (h2 : t.hung = s.hung)
     (h3 : t.wl = s.wl) (h4 : t.left = s.left) (h5 : t.wire = s.wire) (h6 : t.accepted = s.accepted) : InvD g t :=
@@ -612,9 +618,12 @@ theorem invD_evTake (g : Cfg) (s : S) (o i e : Bool) (ks : List KAns) (hi : InvD
       · exact hi.same rfl rfl rfl rfl rfl rfl
       · exact hi
     generalize (if (g.mode == Mode.oneshot) = true then { s with disarmed := true } else s) = t at h1 ⊢
-    have h2 : InvD g (if (deliverable s o i e).1 = true then flush g t ks else t) := by
+    have h2 : InvD g (if (deliverable s o i e).1 = true then
+        (if t.connecting = true then { t with connEv := true } else flush g t ks) else t) := by
       split
-      · exact invD_flush g _ ks h1
+      · split
+        · exact h1.same rfl rfl rfl rfl rfl rfl
+        · exact invD_flush g _ ks h1
       · exact h1
     exact h2.same rfl rfl rfl rfl rfl rfl
 
@@ -623,11 +632,16 @@ theorem invD_evEnd (g : Cfg) (s : S) (hi : InvD g s) : InvD g (evEnd g s) := by
   split
   · exact hi
   · simp only
-    have h1 : InvD g (if s.rearm = true then resetPollerEvent g { s with rearm := false } else s) := by
+    have h0 : InvD g (if s.connEv = true then cResetRead g { s with connecting := false, connEv := false } else s) := by
       split
-      · exact (hi.same (t := { s with rearm := false }) rfl rfl rfl rfl rfl rfl).of_D (D_resetPollerEvent g _)
+      · exact (hi.same (t := { s with connecting := false, connEv := false }) rfl rfl rfl rfl rfl rfl).of_D (D_cResetRead g _)
       · exact hi
-    generalize (if s.rearm = true then resetPollerEvent g { s with rearm := false } else s) = t at h1 ⊢
+    generalize (if s.connEv = true then cResetRead g { s with connecting := false, connEv := false } else s) = s0 at h0 ⊢
+    have h1 : InvD g (if s0.rearm = true then resetPollerEvent g { s0 with rearm := false } else s0) := by
+      split
+      · exact (h0.same (t := { s0 with rearm := false }) rfl rfl rfl rfl rfl rfl).of_D (D_resetPollerEvent g _)
+      · exact h0
+    generalize (if s0.rearm = true then resetPollerEvent g { s0 with rearm := false } else s0) = t at h1 ⊢
     split
     · split
       · exact h1.same rfl rfl rfl rfl rfl rfl
@@ -646,6 +660,7 @@ theorem invD_step (g : Cfg) (s : S) (op : Op) (hi : InvD g s) : InvD g (step g s
   | writev bs k => exact invD_writev g s bs k hi
   | sendfile off len ks => exact invD_sendfile g s off len ks hi
   | register => exact invD_register g s hi
+  | registerDial => exact invD_registerDial g s hi
   | evTake o i e ks => exact invD_evTake g s o i e ks hi
   | evEnd => exact invD_evEnd g s hi
   | close => exact invD_close g s hi
